@@ -18,6 +18,9 @@ def main():
     baseline = {}
     for p in props:
         chk, _ = run_rules(p, Repo(root), "quick")
+        new, known = chk.split_findings()
+        if new:
+            print(f"[baseline] {p}: {len(new)} unexpected finding(s) on the untransformed tree")
         baseline[p] = {f.key for f in chk.findings}
     bad = 0
     for w in which:
